@@ -243,6 +243,8 @@ func (g *Gateway) queryHandler(w http.ResponseWriter, r *http.Request) {
 				}, nil
 			}
 
+			applyDeclaredDefaults(operation, request)
+
 			planningContext := &planner.PlanningContext{
 				Request:    request,
 				Operation:  operation,
@@ -297,6 +299,29 @@ func (g *Gateway) queryHandler(w http.ResponseWriter, r *http.Request) {
 	// emit the response
 	results.Emit(w, rs.IsBatchMode)
 
+}
+
+// applyDeclaredDefaults gives every variable of the selected operation which declares a default
+// value and for which the client sent no value that default (`query($v: Int = 5)` sent without
+// variables). An explicit null is a value and stays. The sub-requests declare their variables
+// without defaults, so the default has to travel as a value.
+func applyDeclaredDefaults(operation *ast.OperationDefinition, request *requests.Request) {
+	for _, vd := range operation.VariableDefinitions {
+		if vd.DefaultValue == nil {
+			continue
+		}
+		if _, ok := request.Variables[vd.Variable]; ok {
+			continue
+		}
+		value, err := vd.DefaultValue.Value(nil)
+		if err != nil {
+			continue
+		}
+		if request.Variables == nil {
+			request.Variables = make(map[string]interface{})
+		}
+		request.Variables[vd.Variable] = value
+	}
 }
 
 func (g *Gateway) parseIntrospectionQuery(plan *planner.QueryPlan, request *requests.Request) *Result {
